@@ -496,6 +496,9 @@ func (f *fnCtx) ifStmt(x *ast.IfStmt, rest func()) {
 	if f.joinIf(x, cond, rest) {
 		return
 	}
+	if !terminates(x.Body) && (x.Else == nil || !terminates(x.Else)) {
+		rest = f.joinPoint(rest)
+	}
 	saved := loopStack
 	thenL := f.capture(func() { f.block(x.Body.List, rest) })
 	loopStack = saved
@@ -583,6 +586,32 @@ func (f *fnCtx) switchStmt(x *ast.SwitchStmt, rest func()) {
 	doSwitch()
 }
 
+// joinPoint: the code after a statement that is reached from several places (loop exit, break, both branches of an if
+// that cannot be joined by a tuple) becomes ONE auxiliary definition over the variables in scope at the statement
+func (f *fnCtx) joinPoint(rest func()) func() {
+	binders, args := f.scopeBinders()
+	scopeLen, rootsLen := len(f.scope), len(f.loopRoots)
+	name := ""
+	uses := 0
+	return func() {
+		uses++
+		if name == "" {
+			f.nloop++
+			name = fmt.Sprintf("%s.k%d", f.lean, f.nloop)
+			saved := loopStack
+			// the continuation sees the variables of the statement's own scope only
+			fullScope, fullRoots := f.scope, f.loopRoots
+			f.scope, f.loopRoots = append([]types.Object{}, f.scope[:scopeLen]...), append([]types.Object{}, f.loopRoots[:rootsLen]...)
+			lines := f.capture(rest)
+			f.scope, f.loopRoots = fullScope, fullRoots
+			loopStack = saved
+			def := "def " + name + " " + strings.Join(binders, " ") + " : Option " + f.retTy + " :=\n" + strings.Join(indent(lines), "\n")
+			f.aux = append(f.aux, def)
+		}
+		f.emit(strings.TrimSpace(name + " " + strings.Join(args, " ")))
+	}
+}
+
 // scopeBinders: every Lean variable a loop body / continuation may mention
 func (f *fnCtx) scopeBinders() (binders []string, args []string) {
 	seen := map[string]bool{}
@@ -610,6 +639,9 @@ func (f *fnCtx) scopeBinders() (binders []string, args []string) {
 		}
 		add(f.nameOf(o), f.g.classify(o.Type()).lean)
 	}
+	for _, o := range f.loopRoots {
+		add(f.nameOf(o), f.roots[o])
+	}
 	if f.hasEff || f.effAss {
 		add("eff", "List Go.Effect")
 	}
@@ -618,6 +650,7 @@ func (f *fnCtx) scopeBinders() (binders []string, args []string) {
 
 func (f *fnCtx) forStmt(x *ast.ForStmt, rest func()) {
 	body := func() {
+		rest := f.joinPoint(rest)
 		f.nloop++
 		name := fmt.Sprintf("%s.loop%d", f.lean, f.nloop)
 		binders, args := f.scopeBinders()
@@ -673,10 +706,13 @@ func (f *fnCtx) rangeStmt(x *ast.RangeStmt, rest func()) {
 		elem = "Nat"
 	case kCoins:
 		elem = "Go.Coin"
+	case kOList:
+		elem = k.opaque
 	default:
 		trFail("range over %s", k.lean)
 	}
 	xs := f.atom(f.expr(x.X))
+	rest = f.joinPoint(rest)
 	f.nloop++
 	name := fmt.Sprintf("%s.range%d", f.lean, f.nloop)
 	binders, args := f.scopeBinders()
@@ -699,6 +735,10 @@ func (f *fnCtx) rangeStmt(x *ast.RangeStmt, rest func()) {
 		vn := "_v"
 		if valO != nil {
 			vn = f.nameOf(valO)
+			if k.k == kOList {
+				f.roots[valO] = k.opaque
+				f.loopRoots = append(f.loopRoots, valO)
+			}
 		}
 		f.emit("| " + vn + " :: it =>")
 		if keyO != nil {
@@ -787,6 +827,7 @@ func (f *fnCtx) bind(lhs ast.Expr, rhs ast.Expr, define bool) {
 			k := f.g.classifySafe(o.Type())
 			if k.k == kOpaque || k.k == kUnit {
 				// a local name for an opaque object: an alias of the accessor path
+				f.bindIndexRoots(rhs)
 				p, args, ok := f.pathOf(rhs)
 				if !ok || args != nil {
 					trFail("opaque local %s bound to %s", id.Name, f.src(rhs))
@@ -912,6 +953,9 @@ func (f *fnCtx) multi(c *ast.CallExpr, n int) []string {
 			f.emit("let (" + strings.Join(ts, ", ") + ") := " + f.nameOf(o) + " " + strings.Join(as, " "))
 			return ts
 		}
+	}
+	if vals, ok := f.opaqueCall(c, n); ok {
+		return vals
 	}
 	trFail("multi-value call %s", f.src(c))
 	return nil
@@ -1152,7 +1196,8 @@ func (g *gen) translate(t trTarget) {
 		f := &fnCtx{g: g, pkg: p, info: p.TypesInfo, fd: fd, tgt: t, lean: leanName(t),
 			names: map[types.Object]string{}, used: map[string]bool{}, roots: map[types.Object]string{},
 			alias: map[types.Object]pathVal{}, must: map[types.Object]types.Object{}, may: map[types.Object][]types.Object{},
-			stale: map[types.Object]bool{}, fresh: map[types.Object]bool{}, mut: map[types.Object]bool{}, mutAss: mutAss, effAss: effAss}
+			stale: map[types.Object]bool{}, fresh: map[types.Object]bool{}, mut: map[types.Object]bool{}, mutAss: mutAss, effAss: effAss,
+			idxRoot: map[*ast.IndexExpr]types.Object{}}
 		text, sig = f.function()
 		changed := false
 		for o := range f.mut {
@@ -1179,6 +1224,17 @@ func (f *fnCtx) function() (string, *fnSig) {
 	loopStack = nil
 	sig := &fnSig{lean: f.lean}
 	ft := f.info.ObjectOf(f.fd.Name).Type().(*types.Signature)
+	body := f.fd.Body
+	var lit *ast.FuncLit
+	if len(body.List) == 1 {
+		if r, ok := body.List[0].(*ast.ReturnStmt); ok && len(r.Results) == 1 {
+			if fl, ok := r.Results[0].(*ast.FuncLit); ok {
+				// a constructor of a closure: the closure body with the constructor's parameters in scope
+				lit = fl
+				body = fl.Body
+			}
+		}
+	}
 	var binders []string
 	addParam := func(o types.Object) {
 		k := f.g.classify(o.Type())
@@ -1203,6 +1259,12 @@ func (f *fnCtx) function() (string, *fnSig) {
 	}
 	for i := 0; i < ft.Params().Len(); i++ {
 		addParam(ft.Params().At(i))
+	}
+	if lit != nil {
+		ft = f.info.TypeOf(lit).(*types.Signature)
+		for i := 0; i < ft.Params().Len(); i++ {
+			addParam(ft.Params().At(i))
+		}
 	}
 	var resT []string
 	for i := 0; i < ft.Results().Len(); i++ {
@@ -1251,7 +1313,7 @@ func (f *fnCtx) function() (string, *fnSig) {
 		f.emit("let " + f.nameOf(o) + " : " + k.lean + " := " + zeroOf(k))
 		f.declare(o)
 	}
-	f.block(f.fd.Body.List, func() {
+	f.block(body.List, func() {
 		if len(f.res) == 0 || len(f.named) > 0 {
 			f.ret(f.namedVals())
 		} else {
@@ -1297,11 +1359,31 @@ func translateAll(pkgs map[string]*packages.Package, out string) (okKeys []strin
 	b.WriteString("/- GENERATED by factgen/translate.go from /repo and the pinned go-ethereum fork on every check run — do not edit.\n")
 	b.WriteString("   One Lean definition per translated Go function (semantics: Base/GoSem.lean); Facts/Tie*.lean relate them to the models. -/\n")
 	b.WriteString("import EvermintModel.Base.GoSem\nset_option linter.unusedVariables false\nnamespace Evermint.GenCode\nopen Evermint\n\n")
-	var sn []string
+	var names []string
 	for n := range g.structs {
+		names = append(names, n)
+	}
+	sort.Strings(names)
+	var sn []string
+	done := map[string]bool{}
+	var visit func(n string)
+	visit = func(n string) {
+		if done[n] {
+			return
+		}
+		done[n] = true
+		for _, ft := range g.structs[n].fields {
+			for _, m := range names {
+				if m != n && strings.Contains(" "+strings.NewReplacer("(", " ", ")", " ").Replace(ft)+" ", " "+m+" ") {
+					visit(m)
+				}
+			}
+		}
 		sn = append(sn, n)
 	}
-	sort.Strings(sn)
+	for _, n := range names {
+		visit(n)
+	}
 	for _, n := range sn {
 		s := g.structs[n]
 		var fs []string
